@@ -852,6 +852,11 @@ fn main() {
     let t0 = Instant::now();
     let kind = spec.get("kind").unwrap_or("create").to_string();
     match kind.as_str() {
+        "create" if spec.get("in_thread") == Some("1") => {
+            // the launch happens on a short-lived thread; its thread-local state is gone when we look again
+            let (sp, st) = (Spec { kv: spec.kv.clone() }, stub.clone());
+            std::thread::spawn(move || run_create(&sp, &st)).join().unwrap();
+        }
         "create" => run_create(&spec, &stub),
         "exec" => run_exec(&spec, &stub),
         "pipeline" => run_pipeline(&spec, &stub),
